@@ -44,7 +44,7 @@ func menu(i int) []*st {
 	n := func(p string) string { return fmt.Sprintf("%s%d", p, i) }
 	return []*st{
 		leaf(n("l")),
-		{kw: "leaf", arg: n("d"), kids: []*st{{kw: "type", arg: "string"}, {kw: "description", arg: "two words"}, {kw: "default", arg: "x y"},
+		{kw: "leaf", arg: n("d"), kids: []*st{{kw: "type", arg: "string"}, {kw: "description", arg: "two w\u00f6rds \u20ac"}, {kw: "default", arg: "x y"},
 			// backslashes are escapes only inside double quotes: the unquoted and single-quoted forms are literal
 			{kw: "units", arg: "C:\\temp\\new\\\\x"}}},
 		{kw: "leaf-list", arg: n("ll"), kids: []*st{{kw: "type", arg: "string"}}},
@@ -272,7 +272,9 @@ func check(text string, exp []expNode) []engine.Violation {
 
 var trivia = []string{"", " ", "\t", "\n", "\r\n", " /*c*/ ", " //c\n", "\n\n  ",
 	// comment bodies made of the comment delimiters themselves
-	" /**/ ", " /*/ x */ ", " /***/ ", " /* / * // */ ", " //\n", " // /* c\n", " /*\n*/ ", " /* \"q; { */ ", " //*/ c\n", " /*a*//*b*/ "}
+	" /**/ ", " /*/ x */ ", " /***/ ", " /* / * // */ ", " //\n", " // /* c\n", " /*\n*/ ", " /* \"q; { */ ", " //*/ c\n", " /*a*//*b*/ ",
+	// multi-byte characters in front of the next keyword on the same line (columns count bytes)
+	" /* \u00e9\u20ac\U0001d11e */ ", " /*\u00b5*/ "}
 
 func module(body []*st) *st {
 	kids := []*st{{kw: "namespace", arg: "urn:m"}, {kw: "prefix", arg: "m"}}
